@@ -21,7 +21,7 @@ pub fn def() -> CheckDef {
 fn meta(_ctx: &Ctx) -> Meta {
     Meta {
         level: "exploration",
-        rule: "every extraction runs in a fresh jail J with the target at J/l1/l2/l3/l4/l5/target and canary files/directories on every level outside the target; a full recursive snapshot (type, mode, size, mtime ns, content hash, link target) of J minus the target is taken before and after and must be identical. Positive: seeded built packages (nested directories, explicit directory entries, symlinks, all permission bits incl. setuid/setgid/sticky) must produce every regular file / directory / symlink at target+path with the archived content, permission bits and link target. Hostile (hand-encoded header + cpio; all absolute paths and symlink targets point into J, '..' chains at most 5 long): '..' in directory or base names, base names with '/', absolute base names, empty names, duplicate paths, a symlink followed by a file of the same path or below it (absolute and relative targets, to a file and to a directory), directory then symlink of the same name, FIFO/char/block/socket/zero type bits, names disagreeing between cpio and header; result must be Ok or Err, never a panic. Release and verifdbg. Unprivileged phase: built packages (incl. read-only directory entries with children) are written to a file and extracted by a child process running as uid 65534 under umask 022 / 077 / 000 / 027; same oracles. Further hostile families: entries whose directory name lies below a link, lone links to existing outside objects, links to siblings of the target whose names start with the target's name. distinct_nontrivial = distinct extractions whose jail snapshots were compared".into(),
+        rule: "every extraction runs in a fresh jail J with the target at J/l1/l2/l3/l4/l5/target and canary files/directories on every level outside the target; a full recursive snapshot (type, mode, size, mtime ns, content hash, link target) of J minus the target is taken before and after and must be identical. Positive: seeded built packages (nested directories, explicit directory entries, symlinks, all permission bits incl. setuid/setgid/sticky) must produce every regular file / directory / symlink at target+path with the archived content, permission bits and link target. Hostile (hand-encoded header + cpio; all absolute paths and symlink targets point into J, '..' chains at most 5 long): '..' in directory or base names, base names with '/', absolute base names, empty names, duplicate paths, a symlink followed by a file of the same path or below it (absolute and relative targets, to a file and to a directory), directory then symlink of the same name, FIFO/char/block/socket/zero type bits, names disagreeing between cpio and header; result must be Ok or Err, never a panic. Release and verifdbg. Unprivileged phase: built packages (incl. read-only directory entries with children) are written to a file and extracted by a child process running as uid 65534 under umask 022 / 077 / 000 / 027; same oracles. Further hostile families: entries whose directory name lies below a link, lone links to existing outside objects, links to siblings of the target whose names start with the target's name. Hostile packages are extracted to the canonical spelling of the target, to a spelling with . and .. components and through a symbolic link to its parent; the unprivileged child runs with 48 file descriptors and every tenth of its packages has 120-320 files. distinct_nontrivial = distinct extractions whose jail snapshots were compared".into(),
         assumptions: vec!["hostile inputs are constructed so that an escaping write lands inside the jail".into()],
         floor_distinct: 100,
     }
@@ -90,6 +90,8 @@ fn make_jail(root: &Path) -> Jail {
         std::fs::create_dir_all(d.join(sib).join("sub")).unwrap();
         std::fs::write(d.join(sib).join("file"), b"sibling whose name starts like the target").unwrap();
     }
+    // another way to reach the target's parent: J/alias -> l1/l2/l3/l4/l5
+    let _ = std::os::unix::fs::symlink("l1/l2/l3/l4/l5", root.join("alias"));
     let target = d.join("target");
     let before = snapshot(root, &target);
     Jail { root: root.to_path_buf(), target, before }
@@ -416,7 +418,16 @@ fn unprivileged_phase(ctx: &Ctx, rep: &Report, base: &Path) {
     let n: u64 = if ctx.is_dbg() { 0 } else { ctx.tier.pick(60, 1500) };
     par_for(ctx.threads, n, 1, |i| {
         let mut rng = Rng::for_case(ctx.seed, "C12-unpriv", i);
-        let cfg = positive_cfg(&mut rng);
+        let mut cfg = positive_cfg(&mut rng);
+        if i % 10 == 3 {
+            // many small files (the child runs with 48 file descriptors)
+            for k in 0..(120 + rng.usize(200)) {
+                let mut f = cfg.files.iter().find(|f| f.symlink.is_none() && f.mode.map(|m| m & 0o170000 == 0o100000).unwrap_or(true)).cloned().unwrap_or_else(|| FileCfg { dest: String::new(), content_kind: "text".into(), size: 3, content_seed: 1, mode: Some(0o100644), source_perm: 0o644, user: None, group: None, flags: vec![], caps: None, symlink: None, mtime: 1_500_000_000, verify: None });
+                f.dest = format!("/opt/many/d{}/f{k}", k % 7);
+                f.size = k % 5;
+                cfg.files.push(f);
+            }
+        }
         let jroot = base.join(format!("u{i}"));
         let jail = make_jail(&jroot);
         let src = jroot.join("outside-dir").join("sources");
@@ -484,6 +495,9 @@ pub fn extract_as_main(args: &[String]) -> i32 {
             println!("SETUID-FAILED");
             return 3;
         }
+        // few file descriptors: extraction must not keep one per file
+        let lim = libc::rlimit { rlim_cur: 48, rlim_max: 48 };
+        libc::setrlimit(libc::RLIMIT_NOFILE, &lim);
         libc::umask(args.get(3).and_then(|u| u32::from_str_radix(u, 8).ok()).unwrap_or(0o022) as libc::mode_t);
     }
     let r = guard(|| rpm::Package::open(&args[1]).and_then(|p| p.extract(&args[2])));
@@ -564,7 +578,15 @@ fn run(ctx: &Ctx, rep: &Report) {
         };
         let jail = make_jail(&jroot);
         rep.eval(1);
-        let r = guard(|| pkg.extract(&jail.target));
+        // the destination is handed over in its canonical spelling, in a spelling with "." and ".."
+        // components, or through a symbolic link to its parent directory
+        let spelled: PathBuf = match i % 3 {
+            0 => jail.target.clone(),
+            1 => PathBuf::from(format!("{}/./canary-dir/../target", jail.target.parent().unwrap().display())),
+            _ => jail.root.join("alias").join("target"),
+        };
+        rep.count(["hostile.destination.canonical", "hostile.destination.dot-dotdot", "hostile.destination.through-symlink"][(i % 3) as usize], 1);
+        let r = guard(|| pkg.extract(&spelled));
         let diff = jail_diff(&jail);
         rep.nontrivial(crate::util::rng::hash_bytes(&bytes) ^ i);
         rep.count(&format!("hostile.{}", match &r {
